@@ -758,11 +758,13 @@ fn read_code<C: CodeVisitor>(
 
 					let label = labels.get_or_create(offset)?;
 
-					frames.push((label, frame_data));
+					frames.push((offset, label, frame_data));
 				}
 
 				// The format of the StackMap attribute doesn't guarantee ordered elements.
-				frames.sort_by_key(|&(label, _)| label);
+				// Sort by the bytecode offset: the ids of the labels follow the order the labels were created in, not the offsets.
+				frames.sort_by_key(|&(offset, _, _)| offset);
+				let frames: Vec<_> = frames.into_iter().map(|(_, label, frame_data)| (label, frame_data)).collect();
 
 				// Later on, we want to quickly remove the first elements. A VecDeque is faster for this.
 				let frames: std::collections::VecDeque<_> = frames.into();
